@@ -150,6 +150,96 @@ def rule_d(F):
     return res
 
 
+def rule_w(F):
+    """C12.W: a slot never keeps a dropped element. In a function that drops an element in place and does not empty the slot
+    (no hash is zeroed there), every `drop_in_place(<array>.add(i))` is followed, on every path to the return, by a
+    `ptr::write(<same array>.add(..), ..)`: the overwrite of an existing key replaces both halves of the entry. A key that
+    is dropped but not re-written stays in the table as a dangling object: it is dropped again by the next overwrite /
+    clear / drop of the map, and lookups compare against freed memory."""
+    from cao.facts import DefUse
+    res = []
+    n = 0
+    for f in F.fns:
+        if not f.mir or f.is_closure or "collections::hash_map" not in f.path or f.hir is None or f.hir.get("exp"):
+            continue
+        du = DefUse(f)
+        cfg = f.cfg
+
+        def array_of(op, depth=0):
+            """which of the map's arrays ('keys' / 'values') a pointer operand points into"""
+            l = op_local(op)
+            seen = set()
+            while l is not None and l not in seen and depth < 20:
+                depth += 1
+                seen.add(l)
+                d = du.sole_def(l)
+                if d is None:
+                    nm_ = f.local_name(l)
+                    return nm_ if nm_ in ("keys", "values") else None
+                if d[2] == "call":
+                    t_ = d[3]
+                    cn = callee_names(t_["func"])
+                    if any(x.rsplit("::", 1)[-1] in ("add", "offset", "as_ptr", "cast", "sub", "wrapping_add") for x in cn) and t_["args"]:
+                        l = op_local(t_["args"][0])
+                        continue
+                    return None
+                rv = d[3]["rv"]
+                pl = None
+                if rv["k"] in ("use", "cast"):
+                    pl = op_place(rv["op"])
+                elif rv["k"] in ("ref", "rawptr"):
+                    pl = rv["place"]
+                if pl is None:
+                    return None
+                flds = [e["name"] for e in pl["p"] if e["k"] == "field"]
+                if flds and flds[-1] in ("keys", "values"):
+                    return flds[-1]
+                if flds and flds[-1] not in ("pointer", "0"):
+                    return None
+                l = pl["l"]
+            return None
+        drops, writes = [], {}
+        zeroes = False
+        for bi, t in mu.calls(f):
+            cn = callee_names(t["func"])
+            if any(x.endswith("ptr::drop_in_place") for x in cn) and t["args"]:
+                a = array_of(t["args"][0])
+                if a:
+                    drops.append((bi, t, a))
+            if any(x.endswith("ptr::write") for x in cn) and t["args"]:
+                a = array_of(t["args"][0])
+                if a:
+                    writes.setdefault(a, set()).add(bi)
+            if any(x.rsplit("::", 1)[-1] in ("zero_hashes", "dealloc", "fill", "clear_arrays") for x in cn):
+                zeroes = True
+        for b in f.blocks:
+            for st in b["stmts"]:
+                if st["k"] == "assign" and st["rv"]["k"] == "use" and st["rv"]["op"].get("k") == "const" and st["rv"]["op"].get("val") == 0 \
+                        and any(e["k"] in ("deref", "index") for e in st["place"]["p"]) and "u64" in str(st["rv"]["op"].get("ty", "u64")):
+                    zeroes = True
+        if not drops or zeroes:
+            continue
+        fname = (f.root or f.short).rsplit("::", 1)[-1]
+        cnt = {}
+        for bi, t, a in drops:
+            k = cnt.get(a, 0)
+            cnt[a] = k + 1
+            n += 1
+            key = "C12/W/%s/dropped-%s-slot-is-rewritten%s" % (fname, a, "" if k == 0 else "#%d" % k)
+            good = t.get("target") is not None and cfg.every_path_passes(t["target"], cfg.return_blocks(), writes.get(a, set()))
+            if good:
+                res.append(ok("C12.W", key, f.loc(t.get("ln")), "every path from the drop to the return writes a new element into `%s`" % a))
+            else:
+                res.append(bad("C12.W", key, f.loc(t.get("ln")),
+                               "%s drops the element of `%s` in place and can return without writing a new one into that array, while the slot "
+                               "stays occupied: the entry keeps a dropped %s - it is dropped a second time by the next overwrite, clear or drop "
+                               "of the map, and lookups compare against freed memory (keys that own memory no longer match)" %
+                               (fname, a, "key" if a == "keys" else "value")))
+    if n < 2:
+        raise AnchorMissing("in-place drops in overwriting functions of hash_map.rs (found %d)" % n)
+    return res
+
+
 def rule_z(F):
     res = []
     f = F.fn("collections::hash_map::hash")
@@ -351,6 +441,7 @@ def rule_k(F):
 
 RULES = [
     Rule("C12.D", rule_d, 5, "a needs_drop test gates only the drops of its own element type"),
+    Rule("C12.W", rule_w, 2, "a slot that stays occupied never keeps a dropped element"),
     Rule("C12.F", rule_f, 2, "when the growth test declines a free slot remains after the insertion"),
     Rule("C12.K", rule_k, 2, "every resize leaves a free slot"),
     Rule("C12.R", rule_r, 4, "slot/count pairing in CaoHashMap"),
